@@ -74,6 +74,12 @@ CLAIMS = {
    design_ref="DESIGN.md §4 C14",
    note="Partial for PE/Mach-O beyond headers, section/segment tables, symbols and address queries (imports, TLS, dyld info, relocations are not modelled). Trusted: Coq kernel; harness/elfgen.py and fmtgen.py (reference readers/synthesisers).",
    technique="Coq proofs of codec/parser round trips + regenerated layout obligations + model correspondence + differential testing against independent readers"),
+ "C15": dict(
+   category="proof",
+   text="Coq theorems over a model of Elf.loadsegment's page arithmetic and the loaders' write loop: for every power-of-two page size, every file and every list of load segments written in table order, each byte of each segment's file-backed part is the file byte mapped there and each bss byte is zero, provided later segments leave earlier ones intact - proved for page-disjoint ascending segments and for page-sharing neighbours with the same offset-address delta; fetching n bytes inside a segment returns the file's bytes; PE sections and Mach-O segments are raw bytes followed by zeros; for record formats the last write covering an address decides. Tie: Elf.loadsegment results and byte reads of whole loaded tasks vs the model (vm_compute); synthesised ELF images for all 8 machines with a loader x page sizes 2^8..2^16 x page-disjoint/page-sharing layouts, PE32/PE32+, Mach-O, HEX/SREC/raw inputs and the shipped samples (relocation / import / symbol-pointer slots as the only allowed deviations) vs an independent segment-table reader; program counter = entry; fetch at entry decodes the file's bytes. Five genuine defects found by this check were repaired.",
+   design_ref="DESIGN.md §4 C15",
+   note="Partial: initial registers other than the program counter, stack and OS stubs are not part of the model; memory is the abstract byte map (C08 ties MemoryMap to it).",
+   technique="Coq proofs (page arithmetic, write-sequence invariants) + model correspondence + differential testing against an independent reader"),
  "C16": dict(
    category="proof",
    text="Coq theorems over a model of StructCore layout and the unpack/pack skeleton: every field of a non-packed structure sits at the least offset that is a multiple of its alignment and not before the previous field's end (the C ABI characterisation), packed structures have no padding, the size is a multiple of the alignment, unpack(pack(v)) = v for every field list and surrounding bytes, and the unsigned LEB128 codec round-trips for every number and trailing bytes. Tie: generated definitions (scalars, arrays, strings, full-width bitfields, nested structs/unions, packed or not, per-field byte order) through StructFactory vs the Gallina layout model (vm_compute); the C-layout reference is validated per run against gcc -m64 and -m32 -malign-double (sizeof/_Alignof/offsetof); unpack/pack round trips on random bytes for both pointer sizes; counted, bound, LEB128 (signed and unsigned, vs an independent encoder) and terminated fields. Nine genuine defects found by this check were repaired.",
